@@ -22,6 +22,7 @@ import (
 	"github.com/go-kit/log/level"
 	"github.com/prometheus/client_golang/prometheus"
 	"github.com/prometheus/client_golang/prometheus/promauto"
+	"github.com/prometheus/prometheus/model/labels"
 	"github.com/prometheus/prometheus/promql"
 	"github.com/prometheus/prometheus/promql/parser"
 	"github.com/prometheus/prometheus/storage"
@@ -361,7 +362,13 @@ loop:
 		}
 		sort.Sort(resultMatrix)
 		if resultMatrix.ContainsSameLabelset() {
-			return newErrResult(ret, errors.New("vector cannot contain metrics with the same labelset"))
+			// Series with equal label sets (e.g. after the metric name was dropped) are one
+			// series of the result as long as they never have a sample at the same step.
+			merged, ok := mergeSameLabelset(resultMatrix)
+			if !ok {
+				return newErrResult(ret, errors.New("vector cannot contain metrics with the same labelset"))
+			}
+			resultMatrix = merged
 		}
 		ret.Value = resultMatrix
 		return ret
@@ -404,6 +411,29 @@ loop:
 
 	ret.Value = result
 	return ret
+}
+
+// mergeSameLabelset merges the series of a matrix sorted by labels which have equal label sets.
+// It reports false if two of them have a point with the same timestamp.
+func mergeSameLabelset(m promql.Matrix) (promql.Matrix, bool) {
+	out := make(promql.Matrix, 0, len(m))
+	for _, s := range m {
+		if len(out) == 0 || !labels.Equal(out[len(out)-1].Metric, s.Metric) {
+			out = append(out, s)
+			continue
+		}
+		last := &out[len(out)-1]
+		points := make([]promql.Point, 0, len(last.Points)+len(s.Points))
+		points = append(append(points, last.Points...), s.Points...)
+		sort.SliceStable(points, func(i, j int) bool { return points[i].T < points[j].T })
+		for i := 1; i < len(points); i++ {
+			if points[i].T == points[i-1].T {
+				return nil, false
+			}
+		}
+		last.Points = points
+	}
+	return out, true
 }
 
 func newErrResult(r *promql.Result, err error) *promql.Result {
